@@ -65,22 +65,25 @@ CHECKS = {
    text="Panic-freedom and termination as the only obligations, over the real entry point and kernels on unconstrained symbolic input: ServeHTTP with symbolic content types, Accept headers, paths and bodies across the gRPC, gRPC-web and transcoding entries on HTTP/1 and HTTP/2; match at the 64-token cap; query parameters over list / map / nested fields; registration of mutated templates; stream codec parsers; gRPC frame reader with stats; status tables; negotiation; timeout parser. Any panic escaping larking's code or a path exhausting the step budget is reported with the concrete request and replayed natively.",
    note="Trusted base as C07. Every media type is served by the recording codec (real protobuf-go codecs cannot run on fake messages). Outside: the HTTP/2 server, ws.UpgradeHTTP / WebSocket frame I/O, user-supplied interceptors, gzip.",
    design="§4 C09"),
+ "C10": dict(
+   text="Bounded model checking of the proxy path on the real code under the engine's cooperative goroutine model: one gRPC call through the REAL RegisterConn + createConnHandler (its pump goroutine and reply loop) + serveGRPC for each of the four streaming shapes, against a scripted backend (0..2 replies, final status OK / NotFound / Canceled / Unavailable, failing before, during or after the stream, reading the request stream first, last or never) and a client that sends 0..2 messages and either ends its stream or keeps it open; the backend must receive exactly the client's messages and metadata, the client exactly the backend's replies in order followed by its final status, and the call must complete (deadlocks are found by the scheduler). grpc-go's client transport is replaced by an in-memory stream under the engine; every replay runs the same scripted backend behind a real in-process grpc.Server, so the model is compared with real grpc-go on every run.",
+   note="Partial claim. Trusted: go/ssa semantics, engine semantics incl. the goroutine model, z3, the in-memory stream model (documented assumptions in the evidence file). One defect found this way was repaired (missing CloseSend, F-D35), two are listed as known findings (F-D36 hang when the backend ends first while the client keeps its stream open; F-D37 empty client streams are answered Unknown 'EOF' without calling the backend) and are reported as KNOWN-FINDING lines. Outside: status details, backend headers / trailers, proxied calls over the HTTP-transcoding, gRPC-web and WebSocket front ends, more than 2 messages per direction, flow control, deadline / cancellation propagation, schedules beyond the context bound.",
+   design="§10.8"),
  "C11": dict(
    text="Bounded model checking of the registration state machine through the real code: NewMux, registerService, RegisterConn's body (clone, addConnHandler with a fake reflection conversation, storeState), DropConn, removeHandler, delRule, pickMethodHandler and match are executed for every history of register / drop operations up to the bound, and after every step the published state is compared with a reference model mapping each method to its number of live backends (counts, dropped handlers gone, handler pick succeeds iff a backend is live, the HTTP route of every live method still dispatches, documented return values).",
    note="Trusted base as C07 plus the discovery stubs (fake reflection stream; under the engine proto.Unmarshal of descriptors / protodesc.NewFile / sha256 are replaced, the native replay uses real descriptor bytes). Histories are enumerated by forked choices; there is little for the solver to range over besides the math/rand pick. Outside: invoking proxied handlers, histories longer than the bound.",
    design="§4 C11"),
  "C12": dict(
-   text="Sequential premises of the copy-on-write argument only, decided on the real code: after every writer of every C11 history the previously published snapshot has an unchanged structural fingerprint, no-op and failing operations leave the routing state unchanged (a failed registerService leaves the snapshot pointer identical), and a relational query shows that an old snapshot resolves every symbolic request path identically before and after a second writer ran.",
-   note="NOT claimed (N/A part of the property): the interleaving quantifier and data-race freedom. The engine has no goroutine semantics; removing Mux.mu or making the publication non-atomic would not be detected.",
+   text="The copy-on-write premises on the real code (after every writer of every registration history the previously published snapshot has an unchanged structural fingerprint; no-op and failing operations leave the routing state unchanged, a failed registerService leaves the snapshot pointer identical; an old snapshot resolves every symbolic request path identically before and after a second writer ran) AND, under the engine's cooperative goroutine model, the interleavings themselves: the REAL RegisterConn / registerService / DropConn run concurrently with each other and with a request for an already-registered method; every schedule within the context bound (2 / 3 preemptive switches; scheduling points at mutex, atomic snapshot load / store, pool operations and the reflection round trips) must end with the effect of both operations published, the request served and every live route dispatching. Schedule-dependent counterexamples are confirmed natively by stress replay against a real in-process gRPC backend.",
+   note="Trusted base as C11 plus the goroutine model (scheduling points only at synchronisation operations; validated per run by VerifH_sched_selftest, which must find the textbook lost update and must not find one under a mutex). NOT claimed: data-race freedom as such (no happens-before tracking), interleavings of unsynchronised memory accesses between two scheduling points, schedules beyond the context bound. Removing or narrowing Mux.mu is detected (lost update); replacing the atomic publication by a plain field is not.",
    design="§4 C12"),
  "C13": dict(
-   text="Sequentialised pooled-buffer aliasing only: two HttpBody requests with independent symbolic bodies run back to back over larking's byte pool under a pool model that hands the second request the buffer recycled by the first; the bytes the first handler retained and the reply the first client received must be unchanged afterwards.",
-   note="NOT claimed (N/A part): race freedom, true concurrency, gzip pools, proxy pumps - no goroutine model. The check can fail for one realistic class of edit (dropping the copy out of the pooled buffer / recycling a buffer that is still referenced).",
+   text="Pooled-buffer and pooled-compressor isolation on the real code: consecutive requests over larking's byte pool (HttpBody bodies retained by the first handler), the pooled gzip compressor with the REAL compress/gzip interpreted (consecutive calls reuse the pooled reader / writer, also after a truncated stream; two compressions in flight at once must get two writers), and - under the engine's cooperative goroutine model - two requests served CONCURRENTLY by one mux on every mix of HTTP transcoding, gRPC and gRPC-web text with scheduling points at every pool operation, atomic load and network read / write: each client must receive exactly the reply to its own request under every schedule within the context bound.",
+   note="Trusted base as C07 plus the goroutine model (see C12). NOT claimed: data-race freedom as such, more than two concurrent requests, schedules beyond the context bound, the proxy's stream pumps under C13 (they are exercised under C10). Detects: recycling a buffer before its last use, dropping the copy out of a pooled buffer, returning a pooled gzip writer twice, not resetting a pooled writer.",
    design="§4 C13"),
 }
 
 NOT_APPLICABLE = {
- "C10": "Equivalence 'through larking vs direct' is decided inside grpc-go's client/server transports and by the interleaving of the proxy's two pump goroutines; neither can be encoded by the hand-written go/ssa executor, and the remaining larking code is straight-line forwarding with nothing for a solver to range over.",
  "C20": "Decided by net/http.ServeMux pattern precedence, http.StripPrefix and the h2c/HTTP-2 server; larking contributes three straight-line statements. The gRPC half needs real HTTP/2 framing, which cannot be encoded; the rest would be a bounded claim about net/http's router, not about larking.",
 }
 
